@@ -34,12 +34,14 @@ def make_program(prop: str, seed: int, stream: int, scratch: str,
                  want_mc: Optional[bool] = None, small: bool = False,
                  mc_decoys: str = 'random', mc_position: Optional[str] = None,
                  mc_shape: Optional[int] = None, accept=None,
-                 ref_externs: Optional[float] = None, twins: bool = False):
+                 ref_externs: Optional[float] = None, twins: bool = False,
+                 mc_enum_family: bool = False):
     rng = random.Random(f'{prop}:{seed}:{stream}')
     gen, ent, enc, info = cfggen.gen_shell_case(rng, want_multiclient=want_mc, small=small,
                                                 mc_decoys=mc_decoys, mc_position=mc_position,
                                                 mc_shape=stream if mc_shape is None else mc_shape,
-                                                accept=accept, ref_externs=ref_externs, twins=twins)
+                                                accept=accept, ref_externs=ref_externs, twins=twins,
+                                                mc_enum_family=mc_enum_family)
     work = os.path.join(scratch, f'{prop.lower()}_{stream}')
     prog = cxxlab.ShellProgram(gen, ent, enc, info, work)
     case = {'seed': seed, 'stream': stream, 'cfg': enc, 'component': info['fqn'],
